@@ -524,14 +524,14 @@ func LimitVersions(uui dvid.UUID, configFName string) error {
 	okVersions := make(map[dvid.VersionID]bool, len(tc.Versions))
 	for _, uuid := range tc.Versions {
 		okUUIDs[uuid] = true
-		if v, found := manager.uuidToVersion[uuid]; found {
+		if v, err := manager.versionFromUUID(uuid); err == nil {
 			ancestry, err := manager.getAncestry(v)
 			if err != nil {
 				return err
 			}
 			for _, ancestorV := range ancestry {
-				ancestorUUID, found := manager.versionToUUID[ancestorV]
-				if !found {
+				ancestorUUID, err := manager.uuidFromVersion(ancestorV)
+				if err != nil {
 					return fmt.Errorf("version %d has no UUID equivalent", ancestorV)
 				}
 				okUUIDs[ancestorUUID] = true
